@@ -412,7 +412,12 @@ impl<'a> Socket<'a> {
                     }
 
                     let packet = Ipv4Packet::new_unchecked(&*packet.into_inner());
-                    let ipv4_repr = match Ipv4Repr::parse(&packet, _checksum_caps) {
+                    // The checksum field was just filled in, or zeroed for the device to
+                    // fill in: there is nothing to verify here.
+                    let ipv4_repr = match Ipv4Repr::parse(
+                        &packet,
+                        &crate::phy::ChecksumCapabilities::ignored(),
+                    ) {
                         Ok(x) => x,
                         Err(_) => {
                             net_trace!("raw: malformed ipv4 packet in queue, dropping.");
